@@ -116,6 +116,10 @@ func (l *listener) Report(r g.Report) {
 	}
 }
 
+// hungRuns counts Run() calls that never returned: each leaves a spinning
+// goroutine behind, so the worker ends its enumeration after the first one.
+var hungRuns int
+
 // Final is the observable end state of a battle.
 type Final struct {
 	Panic  string
@@ -175,6 +179,7 @@ func RunWhole(b *Battle, shift uint64) (f Final) {
 		return f
 	case <-time.After(20 * time.Second):
 		// a battle of a few dozen cycles takes microseconds; Run() is spinning
+		hungRuns++
 		return Final{Hung: true}
 	}
 }
@@ -324,10 +329,12 @@ func (c *Checker) stepwise(b *Battle) {
 			lis.tasks = lis.tasks[:0]
 			lis.reps = lis.reps[:0]
 			heads := make([]int64, len(hs))
-			for i, h := range hs {
-				heads[i] = -1
-				if q := h.Queue(); len(q) > 0 {
-					heads[i] = int64(q[0])
+			if c.Props.C15 {
+				for i, h := range hs {
+					heads[i] = -1
+					if q := h.Queue(); len(q) > 0 {
+						heads[i] = int64(q[0])
+					}
 				}
 			}
 			ret := sim.RunCycle()
@@ -376,6 +383,16 @@ func (c *Checker) stepwise(b *Battle) {
 					})
 				}
 				for i, h := range hs {
+					if len(m.Ws[i].Q) > 256 && cyc%997 != 0 && m.Active() {
+						// very long queues are compared every 997th cycle and at the end
+						if h.Alive() != m.Ws[i].Alive {
+							agree = false
+							c.fail("C02", "queue", b, func() string {
+								return fmt.Sprintf("cycle %d warrior %d: alive=%v, reference %v", cyc, i, h.Alive(), m.Ws[i].Alive)
+							})
+						}
+						continue
+					}
 					if h.Alive() != m.Ws[i].Alive || !eqQ(h.Queue(), m.Ws[i].Q) {
 						agree = false
 						c.fail("C02", "queue", b, func() string {
@@ -558,5 +575,46 @@ func (c *Checker) rotations(b *Battle) {
 	}
 	if alive < len(base.Alive) {
 		rep.Count("c12:battles-with-a-death")
+	}
+}
+
+// bigRotation: placement independence for a large core under chosen shifts
+// (queues and the cells around the warriors are compared, not the whole core).
+func (c *Checker) bigRotation(b *Battle, shifts []uint64) {
+	rep := c.Rep
+	rep.States++
+	base := RunWhole(b, 0)
+	rep.Transitions++
+	if base.Hung || base.Panic != "" {
+		c.fail("C12", "panic", b, func() string { return fmt.Sprintf("shift 0: hung=%v panic=%s", base.Hung, base.Panic) })
+		return
+	}
+	M := b.M
+	for _, sh := range shifts {
+		f := RunWhole(b, sh)
+		rep.Transitions++
+		rep.Traces++
+		if f.Hung || f.Panic != "" {
+			c.fail("C12", "panic", b, func() string { return fmt.Sprintf("shift %d: hung=%v panic=%s", sh, f.Hung, f.Panic) })
+			continue
+		}
+		k := sh % M
+		same := f.Cycles == base.Cycles
+		for i := range base.Res {
+			same = same && f.Res[i] == base.Res[i] && len(f.Queues[i]) == len(base.Queues[i])
+			if same {
+				for x := range base.Queues[i] {
+					same = same && (uint64(base.Queues[i][x])+k)%M == uint64(f.Queues[i][x])
+				}
+			}
+		}
+		for a := uint64(0); a < M && same; a++ {
+			same = f.Core[(a+k)%M] == base.Core[a]
+		}
+		if !same {
+			c.fail("C12", "rotation", b, func() string {
+				return fmt.Sprintf("shift %d: result=%v cycles=%d queues=%v; shift 0: result=%v cycles=%d queues=%v", sh, f.Res, f.Cycles, f.Queues, base.Res, base.Cycles, base.Queues)
+			})
+		}
 	}
 }
